@@ -163,14 +163,18 @@ def build_coq(prop=None):
         os.makedirs(os.path.join(COQ, "extracted"), exist_ok=True)
         targets = []
         gname = None
+        extra = []
         if prop is not None:
             gname, g = group_of(prop)
-            targets = ["Properties/%s.vo" % prop, g["extract"]] + [v["extract"] for v in groups().values() if prop in v.get("also_for", [])]
+            targets = ["Properties/%s.vo" % prop, g["extract"]]
+            # auxiliary extraction groups (no properties of their own) used by this property's check
+            extra = [n for n, v in groups().items() if prop in v.get("for", [])]
+            targets += [groups()[n]["extract"] for n in extra]
         p = subprocess.run(["timeout", "3000", "make", "-f", "Makefile.gen", "-k", "-j%d" % NPROC] + targets,
                            cwd=COQ, stdout=subprocess.PIPE, stderr=subprocess.STDOUT, text=True)
         ok = p.returncode == 0
         out = p.stdout
-        for n in ([gname] + [n_ for n_, v in groups().items() if prop in v.get("also_for", [])] if gname else list(groups())):
+        for n in ([gname] + extra if gname else list(groups())):
             try:
                 build_ocaml(n)
             except RuntimeError as e:
